@@ -681,7 +681,15 @@ def campaign_index(build, tier, seed, report, budget=1):
         hist[tag_name(t)] = hist.get(tag_name(t), 0) + 1
     for i, code in verdicts:
         c, r = kept[i]
+        mdiff, code = code // 1000, code % 1000
         kind, cl = code % 10, code // 10
+        if mdiff and cl not in (9,):
+            viol.append({"property": "C02", "op": "getitem", "kind": "representation",
+                         "clause": CLAUSES.get(cl, f"clause{cl}"),
+                         "what": "the model does not reproduce the implementation's answer on an out-of-domain case",
+                         "format": r["inp"]["k"], "producer": c.get("op"),
+                         "case": {"index": index_py(c["index"]), "input": r["inp"], "class": c.get("cls")},
+                         "impl": r["out"], "expected_numpy": r["np"], "replay_py": replay_of(c)})
         if cl == 9 and kind != 9:
             n_outside += 1       # the index left the property's grammar (judge's in_grammar): not a violation
             continue
